@@ -32,7 +32,7 @@ __CPROVER_assigns(*gen, g_gp_n, g_gp_fail, g_gp_hit, g_gp_hv, g_gp_gen)
 __CPROVER_ensures(__CPROVER_return_value == 0 || __CPROVER_return_value == 1)
 __CPROVER_ensures(g_gp_n == __CPROVER_old(g_gp_n) + 1)
 __CPROVER_ensures(g_gp_fail == (__CPROVER_old(g_gp_fail) || __CPROVER_return_value == 0))
-__CPROVER_ensures(input == g_gp_base + 33 * g_gp_j
+__CPROVER_ensures((__CPROVER_same_object(input, g_gp_base) && __CPROVER_POINTER_OFFSET(input) == 33 * g_gp_j)
     ? (g_gp_hit == __CPROVER_old(g_gp_hit) + 1 && g_gp_hv == __CPROVER_return_value && GB16(0) && GB16(16) && GB16(32) && GB16(48))
     : (g_gp_hit == __CPROVER_old(g_gp_hit) && g_gp_hv == __CPROVER_old(g_gp_hv) && GK16(0) && GK16(16) && GK16(32) && GK16(48)))
 ;
@@ -46,22 +46,14 @@ __CPROVER_ensures(input == g_gp_base + 33 * g_gp_j
 #endif
 #define MAXLEN (33 * NMAX)
 
+#ifndef GENS_LOG
 void h_gens_parse(void) {
     secp256k1_context ctx;
     INPUT(size_t, len); INPUT(_Bool, use_data);
     unsigned char *data; secp256k1_bppp_generators *g; size_t n_out = 0;
     verif_ctx_init(&ctx);
-#ifdef GENS_LOG
-    INPUT(size_t, j);
-    __CPROVER_assume(len <= 33 * 4 + 32);
-#else
     __CPROVER_assume(len <= MAXLEN);
-#endif
     INPUT_BUF(buf, data, len, 66);
-#ifdef GENS_LOG
-    g_gp_n = 0; g_gp_fail = 0; g_gp_hit = 0; g_gp_hv = 0; g_gp_base = data; g_gp_j = j;
-    __CPROVER_assume(j < len / 33 || (len < 33 && j == 0));
-#endif
     g = secp256k1_bppp_generators_parse(&ctx, use_data ? data : NULL, len);
     WITNESS_BUF(buf, data, len, 66);
     __CPROVER_assert(g_error == 0, "C19 generators_parse: error callback never invoked (allocation succeeds)");
@@ -75,19 +67,6 @@ void h_gens_parse(void) {
         __CPROVER_assert(g->gens != NULL && __CPROVER_rw_ok(g->gens, g->n * sizeof(secp256k1_ge)), "C19 generators_parse: success => n group elements allocated");
 #endif
     }
-#ifdef GENS_LOG
-    if (use_data && len % 33 == 0) {
-        __CPROVER_assert((g != NULL) == (g_gp_fail == 0), "C19 generators_parse: accepted exactly when every 33-byte element is accepted by generator_parse");
-        if (g != NULL) {
-            secp256k1_ge e;
-            __CPROVER_assert(g_gp_n == len / 33 && g_gp_hit == 1 && g_gp_hv == 1, "C19 generators_parse: every element is decoded exactly once, from data[33 j]");
-            secp256k1_generator_load(&e, &g_gp_gen);
-            __CPROVER_assert(FE_EQ(e.x, g->gens[j].x) && FE_EQ(e.y, g->gens[j].y) && g->gens[j].infinity == 0, "C19 generators_parse: gens[j] is the generator decoded from element j");
-        }
-    }
-    if (g != NULL && n_out == 4 && j == 2) REACH("four generators parsed");
-    if (g == NULL && use_data && len == 132 && g_gp_n == 3) REACH("third-from-last element malformed");
-#endif
     if (g != NULL && n_out >= 2) REACH("list of at least two generators parsed");
     if (g != NULL && n_out == 0) REACH("empty list parsed");
     if (g == NULL && use_data && len % 33 == 0 && len >= 66) REACH("malformed element rejected");
@@ -96,6 +75,45 @@ void h_gens_parse(void) {
     free(data);
     /* --memory-leak-check obligation follows the harness */
 }
+#else
+/* bounded stand-in: data_len = 33 n for each CONCRETE n in 0..4 (allocation sizes are then constants,
+ * which keeps the element-level equalities cheap); lengths that are not a multiple of 33 are covered,
+ * unbounded, by h_gens_parse */
+static void gens_parse_case(size_t len, size_t j) {
+    secp256k1_context ctx; unsigned char *data; secp256k1_bppp_generators *g;
+    verif_ctx_init(&ctx);
+    data = malloc(len ? len : 1); __CPROVER_assume(data != NULL);
+    g_gp_n = 0; g_gp_fail = 0; g_gp_hit = 0; g_gp_hv = 0; g_gp_base = data; g_gp_j = j;
+    g = secp256k1_bppp_generators_parse(&ctx, data, len);
+    __CPROVER_assert(g_error == 0 && g_illegal == 0, "C19 generators_parse (n<=4): no callback");
+    __CPROVER_assert((g != NULL) == (g_gp_fail == 0), "C19 generators_parse (n<=4): accepted exactly when every 33-byte element is accepted by generator_parse");
+    if (g != NULL) {
+        __CPROVER_assert(g->n == len / 33 && g_gp_n == len / 33, "C19 generators_parse (n<=4): n = data_len / 33 elements, one decoder call each");
+        if (j < len / 33) {
+            secp256k1_ge e;
+            __CPROVER_assert(g_gp_hit == 1 && g_gp_hv == 1, "C19 generators_parse (n<=4): element j is decoded exactly once, from data[33 j]");
+            secp256k1_generator_load(&e, &g_gp_gen);
+            __CPROVER_assert(FE_EQ(e.x, g->gens[j].x) && FE_EQ(e.y, g->gens[j].y) && g->gens[j].infinity == 0, "C19 generators_parse (n<=4): gens[j] is the generator decoded from element j");
+        }
+    }
+    if (g != NULL && len == 132 && j == 2) REACH("four generators parsed");
+    if (g == NULL && len == 132 && g_gp_n == 3) REACH("third decoded element malformed");
+    if (g != NULL && len == 0) REACH("empty list parsed");
+    secp256k1_bppp_generators_destroy(&ctx, g);
+    free(data);
+}
+void h_gens_parse_b4(void) {
+    INPUT(size_t, nn); INPUT(size_t, j);
+    __CPROVER_assume(nn <= 4 && j < 4);
+    switch (nn) {
+        case 0: gens_parse_case(0, j); break;
+        case 1: gens_parse_case(33, j); break;
+        case 2: gens_parse_case(66, j); break;
+        case 3: gens_parse_case(99, j); break;
+        default: gens_parse_case(132, j); break;
+    }
+}
+#endif
 
 void h_gens_serialize(void) {
     secp256k1_context ctx;
